@@ -5,11 +5,33 @@ import vcheck
 from checks import common
 
 
+def race_specs(tier, seed):
+    """The 20 ms window of the send-real-soon slot: the last fragment of an upstream packet parks its query there; a tun
+    packet for the session (2..18 ms later) or the client's next query arrives before the timer does."""
+    out = []
+    for i in range(8 if tier == "quick" else 60):
+        pk = []
+        t = 300
+        for j in range(14):
+            d = 2 + (3 * j + i) % 17
+            size = [40, 20, 300, 90][(i + j) % 4]
+            pk.append([t, "C0", "S", "rand", size])
+            pk.append([t + d // 2 if j % 3 == 2 else t, "C0", "S", "text", 30])        # a second upstream packet right behind
+            pk.append([t + d, "S", "C0", ["rand", "text"][j % 2], [30, 200, 700][(i + j) % 3]])
+            t += 900 + 37 * j
+        out.append({"seed": seed * 100000 + 3000 + i,
+                    "sess": {"qtype": common.QTYPES[i % 7], "lazy": 1, "fragsize": [None, 100, 300][i % 3],
+                             "maxlen": [None, 120][i % 2]},
+                    "relay": {"latency": [1000, 300, 4000][i % 3]} if False else {}, "pkts": pk, "dur_ms": t + 8000,
+                    "label": "race%d" % i})
+    return common.fit_frag(out)
+
+
 def main(tier):
     chk = vcheck.Check("C14", "model_checking", tier)
     seed = vcheck.seed()
     common.model_step(chk, "C14", tier)
-    sp = common.transfer_specs(tier, seed + 14) + common.dupspell_specs(tier, seed + 14)
+    sp = common.transfer_specs(tier, seed + 14) + common.dupspell_specs(tier, seed + 14) + race_specs(tier, seed + 14)
     results = common.run_specs(sp, ["C14", "TSRV", "TCLI"])
     common.judge(chk, results, "TraceMonAnswers", "TraceMonAnswers.cfg", "answers", key="C14")
     common.bind_tunnel(chk, results)
